@@ -35,6 +35,8 @@ OPS = {
     "%s::exp": ("decNumberExp", ["self"], None),
     "%s::ln": ("decNumberLn", ["self"], None),
     "%s::pow": ("decNumberPower", ["self", "rhs"], None),
+    "%s::even": ("decQuadRemainder", ["self", "static"], None),
+    "%s::odd": ("decQuadRemainder", ["self", "static"], None),
     "<%s as core::cmp::PartialEq>::eq": ("decQuadCompare", ["self", "rhs"], None),
     "<%s as core::cmp::PartialOrd>::partial_cmp": ("decQuadCompare", ["self", "rhs"], None),
 }
@@ -492,7 +494,7 @@ def run(F, rep, tier):
             continue
         p = main[0]
         got = [sorted(leaf_names(s)) for s in p[2]]
-        want = [[o] for o in operands]
+        want = [[o] if o in ("self", "rhs") else [] for o in operands]    # "static": a constant operand (DEC_TWO), no self / rhs leaf
         if got != want:
             rep.violation(r4, key, "%s passes operands %s to %s, expected %s in this order" % (cands[0], got, prim, want), "%s:%s" % (h["file"], h["line"]))
             continue
@@ -656,8 +658,19 @@ def division_rule(F, rep, seen):
 
 
 # numeric built-ins of the property that are not a single FeelNumber operation: the formula the specification gives, over the positional arguments
+# name -> (formula over the positional arguments, specification text, domain tests allowed on the path besides argument-kind patterns and the
+# Some(..) of the number operation: canonical strings)
 FORMULAS = {
-    "dmntk_feel_evaluator::bifs::core::modulo": ("sub(arg0,mul(arg1,floor(div(arg0,arg1))))", "modulo(dividend, divisor) = dividend - divisor * floor(dividend / divisor) (DMN 1.3, 10.3.4.5)"),
+    "dmntk_feel_evaluator::bifs::core::modulo": ("sub(arg0,mul(arg1,floor(div(arg0,arg1))))", "modulo(dividend, divisor) = dividend - divisor * floor(dividend / divisor) (DMN 1.3, 10.3.4.5)",
+                                                 ["abs(arg1)!=0"]),
+    "dmntk_feel_evaluator::bifs::core::abs": ("abs(arg0)", "abs(n)", []),
+    "dmntk_feel_evaluator::bifs::core::ceiling": ("ceiling(arg0)", "ceiling(n)", []),
+    "dmntk_feel_evaluator::bifs::core::floor": ("floor(arg0)", "floor(n)", []),
+    "dmntk_feel_evaluator::bifs::core::exp": ("exp(arg0)", "exp(n) for every number (overflow is the number operation's business)", []),
+    "dmntk_feel_evaluator::bifs::core::sqrt": ("sqrt(arg0)", "sqrt(n) for n >= 0", ["arg0>=0"]),
+    "dmntk_feel_evaluator::bifs::core::log": ("ln(arg0)", "log(n) for n > 0", ["arg0>0"]),
+    "dmntk_feel_evaluator::bifs::core::even": ("even(arg0)", "even(n)", []),
+    "dmntk_feel_evaluator::bifs::core::odd": ("odd(arg0)", "odd(n)", []),
 }
 
 
@@ -684,7 +697,25 @@ def formula_rule(F, rep):
         if d[0] == "call" and isinstance(d[1], str):
             return "%s(%s)" % (d[1].split("::")[-1], ",".join(fml(x) for x in d[2]))
         return d[0]
-    for name, (want, text) in FORMULAS.items():
+    def domain_tests(cond):
+        """canonical form of the tests on the path that are neither argument-kind patterns nor the Some(..) of a number operation"""
+        out = []
+        for t, pats, taken in cond:
+            if any(isinstance(p2, str) and (p2.startswith("dmntk_feel::values::Value::") or p2.endswith(("Option::Some", "Option::None"))) for p2 in pats):
+                continue
+            if isinstance(t, tuple) and t and t[0] == "bin" and t[1] in ("==", "!=", "<", "<=", ">", ">="):
+                a, b2, op = fml(t[2]), fml(t[3]), t[1]
+                if not taken:
+                    op = {"==": "!=", "!=": "==", "<": ">=", "<=": ">", ">": "<=", ">=": "<"}[op]
+                b2 = "0" if b2 == "zero()" else b2
+                a = "0" if a == "zero()" else a
+                out.append("%s%s%s" % (a, op, b2))
+            elif isinstance(t, tuple) and t and t[0] == "loop-enter":
+                continue
+            else:
+                out.append("%s%s" % ("" if taken else "!", fml(t) if isinstance(t, tuple) else str(t)))
+        return sorted(out)
+    for name, (want, text, allowed) in FORMULAS.items():
         h = F.hir.get(name)
         if h is None:
             rep.missing_anchor(rid, name)
@@ -692,17 +723,21 @@ def formula_rule(F, rep):
         fl = hirflow.Flow(h)
         k = 0
         for d, cond, line in fl.returns:
-            if not (isinstance(d, tuple) and d and d[0] == "ctor" and d[1].endswith("Value::Number") and d[2]):
+            if not (isinstance(d, tuple) and d and d[0] == "ctor" and d[1].endswith(("Value::Number", "Value::Boolean")) and d[2]):
                 continue
             got = fml(d[2][0])
-            key = "%s:number-result#%d" % (name.split("::")[-1], k)
+            key = "%s:result#%d" % (name.split("::")[-1], k)
             k += 1
-            if got == want:
-                rep.ok(rid, key, text)
-            else:
+            dt = domain_tests(cond)
+            if got != want:
                 rep.violation(rid, key, "%s returns %s at line %s; the specification defines %s" % (name.split("::")[-1], got, line, text), "%s:%s" % (h["file"], line))
+            elif dt != sorted(allowed):
+                rep.violation(rid, key, "%s yields its result only under the additional test(s) %s (the specification's domain is %s): arguments inside the domain are answered with null"
+                              % (name.split("::")[-1], [x for x in dt if x not in allowed] or dt, allowed or "every number"), "%s:%s" % (h["file"], line))
+            else:
+                rep.ok(rid, key, text)
         if k == 0:
-            rep.violation(rid, "%s:number-result" % name.split("::")[-1], "no path of %s returns a number built by a formula (shape not recognised)" % name, "%s:%s" % (h["file"], h["line"]))
+            rep.violation(rid, "%s:result" % name.split("::")[-1], "no path of %s returns a number built by a formula (shape not recognised)" % name, "%s:%s" % (h["file"], h["line"]))
 
 
 def from_string_of_integer(F, h):
